@@ -9,6 +9,7 @@ import (
 	"fmt"
 	"hash/fnv"
 	"os"
+	"os/exec"
 	"path/filepath"
 	"runtime/debug"
 	"sort"
@@ -120,6 +121,26 @@ func Hang(r *Recorder, test, msg string) {
 		r.Flush(1)
 	}
 	os.Exit(1)
+}
+
+// FirstOpChildren runs the current test binary once per kind with env[name]=kind set, so that the package's TestMain
+// can execute ONE operation as the very first use of the library in a fresh process and exit 0 / non-zero. It returns
+// the kinds that failed with their output.
+func FirstOpChildren(name string, kinds []string) map[string]string {
+	failed := map[string]string{}
+	exe, err := os.Executable()
+	if err != nil {
+		return failed
+	}
+	for _, k := range kinds {
+		cmd := exec.Command(exe, "-test.run=^$")
+		cmd.Env = append(os.Environ(), name+"="+k)
+		out, err := cmd.CombinedOutput()
+		if err != nil {
+			failed[k] = fmt.Sprintf("%v\n%s", err, out)
+		}
+	}
+	return failed
 }
 
 // PanicSite returns a short "file:func" signature of the innermost frame of the
